@@ -96,6 +96,9 @@ func EmbedX(l, x *core.Lane, kind int, parts [][]byte, surround bool) *Embedded 
 		if x != nil && x.Chance(1, 4) {
 			o.CTBO = 1 + x.Intn(15)
 		}
+		if x != nil && x.Chance(1, 6) {
+			o.ShortLead = 1 + x.Intn(2) // a CNCV or CTBO box too short to parse, in front of the CMT boxes
+		}
 		if x != nil && x.Chance(1, 4) {
 			o.TopExtra = true // free / unknown boxes between the top-level boxes, also in front of moov
 		}
